@@ -44,7 +44,8 @@ META = {
     "whose age is within 600 s and whose state equals the query's; refutations for the unrepaired validators. The "
     "validator flags, constants and cookie layout in the theorems are regenerated from the source on every run.",
     "level_note": "_partial: allowlist entries are scheme://plain-host[:port] (letters, digits, '-', '.', no xn-- label, not "
-    "ending in a number); hosts needing IDNA are outside the WHATWG model (OUnmodelled counts as unsafe in the theorem, so "
+    "ending in a number); return_to URLs containing '[' (bracketed hosts) are outside the positive theorem (covered by the "
+    "correspondences and the oracle only); hosts needing IDNA are outside the WHATWG model (OUnmodelled counts as unsafe in the theorem, so "
     "the theorem still covers them). Trusted: Coq kernel, the WHATWG model (validated against Node 20 on the grammar), the "
     "urllib model (validated against CPython 3.13), translator, harness; HMAC-SHA256 and base64 are parameters.",
     "design_ref": "§5 C37",
@@ -86,6 +87,11 @@ def _gen_url(rng: Any) -> str:
     k = rng.random()
     if k < 0.1:
         u = rng.choice(RELATIVE)
+    elif k < 0.3:
+        # mostly well-formed URLs on allowlisted / loopback hosts (exercise the accepting arms)
+        sch = rng.choice(["https", "http", "HTTPS", "Http"])
+        host = rng.choice([ALLOWED_HOST, ALLOWED_HOST.upper(), "localhost", "LOCALHOST", "127.0.0.1", "app.example", "k.example", "K.example", "v1.a.b"])
+        u = rng.choice(WRAP_L) + sch + "://" + rng.choice(["", "", "user@", "u:p@", "a@b@"]) + host + rng.choice(["", "", ":80", ":443", ":8443", ":3000", ":08443", ":x", ":", ":0"]) + rng.choice(TAILS) + rng.choice(WRAP_R)
     else:
         u = rng.choice(WRAP_L) + rng.choice(SCHEMES) + rng.choice(SLASHES) + rng.choice(USERINFO) + rng.choice(HOSTS) + rng.choice(PORTS) + rng.choice(TAILS) + rng.choice(WRAP_R)
     for _ in range(rng.choice([0, 0, 0, 1, 1, 2])):
@@ -198,6 +204,17 @@ HDR = "From Coq Require Import List NArith Bool.\nFrom VGI Require Import Bytes 
 def run(ctx: Any) -> None:
     from vlib.coqterm import cN, cbool, cbytes, clist, copt, cstr
 
+    deferred: list[tuple[tuple[Any, ...], Any]] = []
+
+    def mm(*a: Any) -> Any:
+        """Queue one model evaluation; the decorated function receives (ok, bad, log) once all have run."""
+
+        def deco(fn: Any) -> Any:
+            deferred.append((a, fn))
+            return fn
+
+        return deco
+
     translate(ctx)
     ctx.prove(
         ["prop/P_C37.vo", "tie/T_Url.vo", "refuted/R_C37.vo"],
@@ -231,7 +248,7 @@ def run(ctx: Any) -> None:
     ascii_lower = [c for c in range(128, 0x110000) if not (0xD800 <= c < 0xE000) and all(ord(x) < 128 for x in chr(c).lower())]
     ctx.obligation("env:only-U+212A-lowers-to-ascii", "environment", ascii_lower == [0x212A] and "İ".lower() == "i̇", f"{[hex(c) for c in ascii_lower[:5]]}")
 
-    n_url = 700 if quick else 9000
+    n_url = 520 if quick else 4000
     urls = list(dict.fromkeys(WITNESS_RT + RELATIVE + [_gen_url(rng) for _ in range(n_url)]))
     urls = [u for u in urls if not any(0xD800 <= ord(c) < 0xE000 for c in u)]
     ctx.rule = ("cases = URL strings from the grammar [wrap][scheme][slashes/backslashes][userinfo][host][port][tail][wrap] with 0-2 seeded "
@@ -239,6 +256,7 @@ def run(ctx: Any) -> None:
                 "and the model against an https and an http base, (c) given to both validators (several allowlists / prefixes) and the model, "
                 "(d) sent through the real Falcon PKCE flow (subset). Non-trivial = the URL has an authority for at least one of the two parsers.")
 
+    ctx.log("proved; a: urlsplit")
     # ---- (a) urlsplit / hostname / port vs urllib ---------------------------------------------------------------
     cases_a = []
     for u in urls:
@@ -262,10 +280,13 @@ def run(ctx: Any) -> None:
         cases_a.append((f"({cbool(bok)}, {cstr(u)})", exp))
         ctx.count("impl_runs")
     eqb_a = "(fun a b => (N.eqb (fst (fst a)) (fst (fst b))) && str_eqb (fst (snd (fst a))) (fst (snd (fst b))) && str_eqb (snd (snd (fst a))) (snd (snd (fst b))) && option_eqb str_eqb (fst (snd a)) (fst (snd b)) && option_eqb N.eqb (snd (snd a)) (snd (snd b)))"
-    ok, bad, clog = ctx.coq_mismatches(HDR, "run_urlsplit", eqb_a, cases_a, "bool * list N", "N * (list N * list N) * (option (list N) * option N)")
-    ctx.count("model_cases", len(cases_a))
-    ctx.obligation("correspondence:M_Url.run_urlsplit~urllib.parse", "correspondence", ok and not bad, clog if not ok else f"{len(bad)} of {len(cases_a)} disagree; first: {cases_a[bad[0]] if bad else ''}")
+    @mm(HDR, "run_urlsplit", eqb_a, cases_a, "bool * list N", "N * (list N * list N) * (option (list N) * option N)")
+    def _done1(ok: bool, bad: list[int], clog: str) -> None:
+        ctx.count("model_cases", len(cases_a))
+        ctx.obligation("correspondence:M_Url.run_urlsplit~urllib.parse", "correspondence", ok and not bad, clog if not ok else f"{len(bad)} of {len(cases_a)} disagree; first: {cases_a[bad[0]] if bad else ''}")
 
+
+    ctx.log("b: whatwg vs node")
     # ---- (b) WHATWG origin vs Node ------------------------------------------------------------------------------
     pairs = [(u, b[3]) for u in urls for b in BASES]
     node = node_origins(pairs)
@@ -276,11 +297,14 @@ def run(ctx: Any) -> None:
         cases_b.append((f"({cstr(b[0])}, {cstr(b[1])}, {copt(None if b[2] is None else cN(b[2]))}, {cstr(u)})", exp))
         ctx.tally("node_outcome", "fail" if code == 0 else ("other-scheme" if code == 2 else ("base-origin" if r["origin"] == f"{b[0]}://{b[1]}" + (f":{b[2]}" if b[2] else "") else "foreign-origin")))
         ctx.case(["whatwg", u, b[0]], nontrivial=code == 4)
-    ok, bad, clog = ctx.coq_mismatches(HDR, "run_whatwg_based", "worigin_code_eqb", cases_b, "list N * list N * option N * list N", "N * list N * (N * list N) * option N")
-    ctx.count("model_cases", len(cases_b))
-    ctx.count("node_runs", len(pairs))
-    ctx.obligation("correspondence:M_Url.whatwg_origin~node20-URL", "correspondence", ok and not bad, clog if not ok else f"{len(bad)} of {len(cases_b)} disagree; first: {(pairs[bad[0]], node[bad[0]]) if bad else ''}")
+    @mm(HDR, "run_whatwg_based", "worigin_code_eqb", cases_b, "list N * list N * option N * list N", "N * list N * (N * list N) * option N")
+    def _done2(ok: bool, bad: list[int], clog: str) -> None:
+        ctx.count("model_cases", len(cases_b))
+        ctx.count("node_runs", len(pairs))
+        ctx.obligation("correspondence:M_Url.whatwg_origin~node20-URL", "correspondence", ok and not bad, clog if not ok else f"{len(bad)} of {len(cases_b)} disagree; first: {(pairs[bad[0]], node[bad[0]]) if bad else ''}")
 
+
+    ctx.log("c: validators")
     # ---- (c) validators vs the real functions + oracle ------------------------------------------------------------
     cases_c, meta_c = [], []
     accepted: list[tuple[str, list[str]]] = []
@@ -304,11 +328,13 @@ def run(ctx: Any) -> None:
             meta_c.append((u, allowed, code))
             if code == 1:
                 accepted.append((u, allowed))
-    ok, bad, clog = ctx.coq_mismatches(HDR, "run_return_to", "N.eqb", cases_c, "bool * bool * list (list N) * list N", "N")
-    ctx.count("model_cases", len(cases_c))
-    ctx.obligation("correspondence:M_Url.validate_return_to~_validate_return_to", "correspondence", ok and not bad, clog if not ok else f"{len(bad)} of {len(cases_c)} disagree; first: {meta_c[bad[0]] if bad else ''}")
-    for i in bad[:3]:
-        ctx.violation("model-impl-disagree-return-to", "implementation and model decide differently", {"url": meta_c[i][0], "allowed": meta_c[i][1], "impl": meta_c[i][2]})
+    @mm(HDR, "run_return_to", "N.eqb", cases_c, "bool * bool * list (list N) * list N", "N")
+    def _done3(ok: bool, bad: list[int], clog: str) -> None:
+        ctx.count("model_cases", len(cases_c))
+        ctx.obligation("correspondence:M_Url.validate_return_to~_validate_return_to", "correspondence", ok and not bad, clog if not ok else f"{len(bad)} of {len(cases_c)} disagree; first: {meta_c[bad[0]] if bad else ''}")
+        for i in bad[:3]:
+            ctx.violation("model-impl-disagree-return-to", "implementation and model decide differently", {"url": meta_c[i][0], "allowed": meta_c[i][1], "impl": meta_c[i][2]})
+
 
     # oracle: what a browser does with the Locations built from an accepted return_to
     locs = []
@@ -328,6 +354,7 @@ def run(ctx: Any) -> None:
     ctx.count("oracle_return_to_accepted", len(accepted))
     ctx.sample({"return_to": WITNESS_RT[0], "allowlist": ALLOWLISTS[0], "node_origin": "https://evil.com"})
 
+    ctx.log("c2: original url")
     cases_d, meta_d, kept = [], [], []
     orig_inputs = urls if not quick else RELATIVE + WITNESS_RT + rng.sample(urls, min(len(urls), 350))
     for u in dict.fromkeys(orig_inputs):
@@ -344,11 +371,13 @@ def run(ctx: Any) -> None:
             meta_d.append((u, prefix, got))
             if got is not None:
                 kept.append((u, prefix, got))
-    ok, bad, clog = ctx.coq_mismatches(HDR, "run_original", "option_eqb str_eqb", cases_d, "bool * bool * list N * list N", "option (list N)")
-    ctx.count("model_cases", len(cases_d))
-    ctx.obligation("correspondence:M_Url.validate_original_url~_validate_original_url", "correspondence", ok and not bad, clog if not ok else f"{len(bad)} of {len(cases_d)} disagree; first: {meta_d[bad[0]] if bad else ''}")
-    for i in bad[:3]:
-        ctx.violation("model-impl-disagree-original-url", "implementation and model decide differently", {"url": meta_d[i][0], "prefix": meta_d[i][1], "impl": meta_d[i][2]})
+    @mm(HDR, "run_original", "option_eqb str_eqb", cases_d, "bool * bool * list N * list N", "option (list N)")
+    def _done4(ok: bool, bad: list[int], clog: str) -> None:
+        ctx.count("model_cases", len(cases_d))
+        ctx.obligation("correspondence:M_Url.validate_original_url~_validate_original_url", "correspondence", ok and not bad, clog if not ok else f"{len(bad)} of {len(cases_d)} disagree; first: {meta_d[bad[0]] if bad else ''}")
+        for i in bad[:3]:
+            ctx.violation("model-impl-disagree-original-url", "implementation and model decide differently", {"url": meta_d[i][0], "prefix": meta_d[i][1], "impl": meta_d[i][2]})
+
     res = node_origins([(got, b[3]) for _, _, got in kept for b in BASES])
     j = 0
     for u, prefix, got in kept:
@@ -362,6 +391,7 @@ def run(ctx: Any) -> None:
                 ctx.violation("original-url-outside-prefix", "returned URL does not start with the prefix", {"url": u, "prefix": prefix, "returned": got})
     ctx.sample({"original_url": "/\\evil.com", "prefix": "", "node_origin": "https://evil.com"})
 
+    ctx.log("d: cookie")
     # ---- (d) cookie + callback vs the real functions ----------------------------------------------------------------
     sk = M._derive_session_key(TOKEN_KEY)
     now = int(time.time())
@@ -424,14 +454,18 @@ def run(ctx: Any) -> None:
             add_unpack(p + _hmac.new(sk, p, hashlib.sha256).digest(), now, "re-signed-version")
     for raw in (b"", b"x" * 48, b"x" * 49, b"\x04" + b"\0" * 16 + b"m" * 32):
         add_unpack(raw, now, "short")
-    ok, bad, clog = ctx.coq_mismatches(
+    @mm(
         HDR, "run_unpack", "(fun a b => N.eqb (fst a) (fst b) && list_eqb str_eqb (snd a) (snd b))", cases_e, "list N * N * list N", "N * list (list N)"
     )
-    ctx.count("model_cases", len(cases_e))
-    ctx.obligation("correspondence:M_Url.unpack_cookie~_unpack_oauth_cookie", "correspondence", ok and not bad, clog if not ok else f"{len(bad)} of {len(cases_e)} disagree; first: {meta_e[bad[0]] if bad else ''}")
-    ok, bad, clog = ctx.coq_mismatches(HDR, "run_pack_payload", "option_eqb str_eqb", pack_cases, "N * list N * list N * list N * list N", "option (list N)")
-    ctx.count("model_cases", len(pack_cases))
-    ctx.obligation("correspondence:M_Url.cookie_layout~_pack_oauth_cookie", "correspondence", ok and not bad, clog if not ok else f"{len(bad)} of {len(pack_cases)} disagree")
+    def _done5(ok: bool, bad: list[int], clog: str) -> None:
+        ctx.count("model_cases", len(cases_e))
+        ctx.obligation("correspondence:M_Url.unpack_cookie~_unpack_oauth_cookie", "correspondence", ok and not bad, clog if not ok else f"{len(bad)} of {len(cases_e)} disagree; first: {meta_e[bad[0]] if bad else ''}")
+
+    @mm(HDR, "run_pack_payload", "option_eqb str_eqb", pack_cases, "N * list N * list N * list N * list N", "option (list N)")
+    def _done6(ok: bool, bad: list[int], clog: str) -> None:
+        ctx.count("model_cases", len(pack_cases))
+        ctx.obligation("correspondence:M_Url.cookie_layout~_pack_oauth_cookie", "correspondence", ok and not bad, clog if not ok else f"{len(bad)} of {len(pack_cases)} disagree")
+
     # oracle on unpack: success only with a verifying MAC, version 4, age within [0, 600]
     for what, rawhex, dt, got in meta_e:
         raw = bytes.fromhex(rawhex)
@@ -441,6 +475,7 @@ def run(ctx: Any) -> None:
             if not good_mac or raw[0] != 4 or not (0 <= now + 0 - created <= 600):
                 ctx.violation("cookie-accepted-" + what, "cookie accepted although tampered / expired / foreign", {"raw": rawhex, "what": what})
 
+    ctx.log("e: flow")
     # ---- (e) the real flow: every 302 it issues -------------------------------------------------------------------
     flow_rt = WITNESS_RT + [u for u, _ in accepted[:: max(1, len(accepted) // (12 if quick else 80))]] + rng.sample(urls, 10 if quick else 120)
     flow_paths = ["/vgi/describe", "/%5Cevil.com", "///evil.com", "/vgi/%5Cevil.com", "/%09/evil.com", "/vgi/..%2F..%2F%5Cevil.com", "/vgi", "/%5C%5Cevil.com", "/%2F%5Cevil.com"]
@@ -540,6 +575,7 @@ def run(ctx: Any) -> None:
             r5 = client.simulate_get(f"{prefix}/_oauth/logout")
             if r5.status_code in (301, 302, 303, 307):
                 node_jobs.append((r5.headers.get("location", ""), svc + f"{prefix}/_oauth/logout", {"prefix": prefix, "site": "logout"}, "same-origin"))
+    ctx.log("e2: flow oracle + callback model")
     res = node_origins([(loc, base) for loc, base, _, _ in node_jobs])
     for (loc, base, repl, kind), r in zip(node_jobs, res):
         ctx.count("oracle_locations")
@@ -550,9 +586,21 @@ def run(ctx: Any) -> None:
             key = "return-to-backslash-ends-browser-authority" if "\\" in str(repl.get("return_to", "")) else "return-to-foreign-origin"
             has_secret = "client_secret=" in loc
             ctx.violation(key, f"the flow redirects the browser (token{' and client_secret' if has_secret else ''} in the fragment) to {r['origin']}", {**repl, "location": loc, "node": r})
-    ok, bad, clog = ctx.coq_mismatches(HDR, "run_callback", "N.eqb", cb_cases, "list N * option (list N) * N * list N * bool", "N")
-    ctx.count("model_cases", len(cb_cases))
-    ctx.obligation("correspondence:M_Url.callback~_OAuthCallbackResource.on_get", "correspondence", ok and not bad, clog if not ok else f"{len(bad)} of {len(cb_cases)} disagree; first: {cb_meta[bad[0]] if bad else ''}")
+    @mm(HDR, "run_callback", "N.eqb", cb_cases, "list N * option (list N) * N * list N * bool", "N")
+    def _done7(ok: bool, bad: list[int], clog: str) -> None:
+        ctx.count("model_cases", len(cb_cases))
+        ctx.obligation("correspondence:M_Url.callback~_OAuthCallbackResource.on_get", "correspondence", ok and not bad, clog if not ok else f"{len(bad)} of {len(cb_cases)} disagree; first: {cb_meta[bad[0]] if bad else ''}")
+
+
+    # ---- evaluate the model on everything collected above (all correspondences in parallel) -------------------
+    ctx.log(f"model evaluation: {len(deferred)} correspondences")
+    from concurrent.futures import ThreadPoolExecutor
+
+    with ThreadPoolExecutor(max_workers=len(deferred)) as pool:
+        futs = [pool.submit(ctx.coq_mismatches, *a) for a, _ in deferred]
+        results = [f.result() for f in futs]
+    for (_, fn), (ok, bad, clog) in zip(deferred, results):
+        fn(ok, bad, clog)
 
     ctx.assumptions += [
         "HMAC-SHA256 and urlsafe base64 are parameters of the model; the cookie theorems hold for every such function",
